@@ -16,6 +16,9 @@ pub fn child(args: &[String]) {
     let stderr = args[0] == "stderr";
     let threads: usize = args[1].parse().unwrap();
     let recs: usize = args[2].parse().unwrap();
+    if args[3] == "unlocked" {
+        return child_unlocked(stderr, threads, recs);
+    }
     let direct = args[3] == "direct";
     // every piece says whose it is: thread name, message (the record number), appender, piece number; the line end
     // is the last piece
@@ -85,6 +88,48 @@ pub fn child(args: &[String]) {
     }
 }
 
+/// The public `ConsoleWriter` used without `lock()`: every thread has a writer of its own on the same stream and
+/// issues style requests and text pieces one call at a time.  Pieces of different threads may alternate in any order
+/// (ConsoleStream.tla with Locked = FALSE), but each call's bytes - a style request's escape sequence as much as a
+/// piece of text - arrive as one unit.
+fn child_unlocked(stderr: bool, threads: usize, recs: usize) {
+    use log4rs::encode::{writer::console::ConsoleWriter, Color, Style, Write as EncWrite};
+    use std::io::Write;
+    let barrier = Arc::new(Barrier::new(threads));
+    let hs: Vec<_> = (1..=threads)
+        .map(|t| {
+            let barrier = barrier.clone();
+            std::thread::spawn(move || {
+                let mut w = match if stderr { ConsoleWriter::stderr() } else { ConsoleWriter::stdout() } {
+                    Some(w) => w,
+                    None => std::process::exit(4), // colour is forced for these runs: there must be a writer
+                };
+                let mut loud = Style::new();
+                loud.text(Color::Red).background(Color::Cyan).intense(true);
+                let mut calm = Style::new();
+                calm.text(Color::Yellow).intense(false);
+                barrier.wait();
+                for r in 1..=recs {
+                    for a in 1..=2 {
+                        for p in 1..=4 {
+                            let st = if p % 2 == 1 { &loud } else { &calm };
+                            if w.set_style(st).is_err() || w.write_all(format!("<t{}.r{}.{}.{}>", t, r, a, p).as_bytes()).is_err() {
+                                std::process::exit(3);
+                            }
+                        }
+                        if w.set_style(&Style::new()).is_err() || w.write_all(b"\n").is_err() || w.flush().is_err() {
+                            std::process::exit(3);
+                        }
+                    }
+                }
+            })
+        })
+        .collect();
+    for h in hs {
+        h.join().unwrap();
+    }
+}
+
 enum End {
     Pty(RawFd),
     Pipe(File),
@@ -133,7 +178,7 @@ fn drain(e: End) -> Vec<u8> {
 
 /// Cuts the bytes of a stream into pieces: style requests are dropped (their form is Console.tla's business), a
 /// self-describing piece becomes a "w" event, a line end an "nl" event, anything else "junk".
-fn pieces(bytes: &[u8]) -> Vec<Value> {
+fn pieces(bytes: &[u8], nl_is_piece: bool) -> Vec<Value> {
     let mut out: Vec<Value> = vec![];
     let mut i = 0;
     let junk = |out: &mut Vec<Value>, b: u8| {
@@ -161,7 +206,9 @@ fn pieces(bytes: &[u8]) -> Vec<Value> {
         } else if b == b'\r' {
             i += 1; // a terminal turns LF into CR LF
         } else if b == b'\n' {
-            out.push(json!({"e": "nl"}));
+            if nl_is_piece {
+                out.push(json!({"e": "nl"}));
+            }
             i += 1;
         } else if b == b'<' {
             let parsed = bytes[i..].iter().position(|c| *c == b'>').and_then(|end| {
@@ -200,6 +247,7 @@ pub fn main(args: &[String]) {
     let threads: usize = args[1].parse().unwrap();
     let recs: usize = args[2].parse().unwrap();
     let rounds: usize = args[3].parse().unwrap();
+    let unlocked = args.get(4).map(|s| s == "unlocked").unwrap_or(false);
     let exe = std::env::current_exe().unwrap();
     let mut events: Vec<Value> = vec![];
     let mut runs = 0;
@@ -208,14 +256,14 @@ pub fn main(args: &[String]) {
     for round in 0..rounds {
         for (ti, target) in ["stdout", "stderr"].iter().enumerate() {
             for tty in [false, true] {
-                let mode = if (round + ti + tty as usize) % 2 == 0 { "logger" } else { "direct" };
+                let mode = if unlocked { "unlocked" } else if (round + ti + tty as usize) % 2 == 0 { "logger" } else { "direct" };
                 let (out_end, out_fd) = make(tty && ti == 0);
                 let (err_end, err_fd) = make(tty && ti == 1);
                 let mut cmd = Command::new(&exe);
                 cmd.arg("constream-child").arg(target).arg(threads.to_string()).arg(recs.to_string()).arg(mode);
                 cmd.env_remove("NO_COLOR").env_remove("CLICOLOR");
                 // colours on a pipe as well in every other round
-                if round % 2 == 0 {
+                if round % 2 == 0 || unlocked {
                     cmd.env("CLICOLOR_FORCE", "1");
                 } else {
                     cmd.env_remove("CLICOLOR_FORCE");
@@ -254,7 +302,7 @@ pub fn main(args: &[String]) {
                     events.push(json!({"e": "reset", "target": target, "tty": tty, "mode": mode}));
                 }
                 runs += 1;
-                let ps = pieces(&mine);
+                let ps = pieces(&mine, !unlocked);
                 events.extend(ps);
             }
         }
